@@ -222,6 +222,61 @@ def h06b(k, m, f_asc, s_asc, normalized=False):
     return run
 
 
+def h06e(k, m):
+    """Filter.read (two-column wavelength/response text file, loadtxt stubbed) feeding rebin: the filter then lives on a
+    DEcreasing frequency grid nu = c / lambda."""
+    def run(part):
+        std_assumptions(part)
+        part.bounds = {'filter_file_rows': k, 'sed_frequencies': m, 'file': 'wavelength (micron, increasing) and response columns, header "# wav = ..."'}
+        part.assumptions |= {"numpy.loadtxt is a stub returning the symbolic columns of the file; open().readline() gives the header line",
+                             "wavelength -> frequency through astropy's spectral equivalency (exact c)"}
+        from symx import symio
+        fs, env = symio.make_env()
+        fs.files['/filters/F1.txt'] = "# wav = 1.25\n"
+        L = loader.Loader(**env)
+        F = L.load('sedfitter.filter.filter')
+        ex = C.Explorer(query_timeout_ms=120000)
+        cl = R.Claims(part, ex, ID)
+        u = su.module
+
+        def body(c):
+            lam = symnp.sym_array('lam', k)
+            fr = symnp.sym_array('fr', k)
+            snu = symnp.sym_array('snu', m)
+            _monotone(c, lam, True)
+            _monotone(c, snu, True)
+            c.assume(lam[0] > 0)
+            for i in range(k):
+                c.assume(fr[i] >= 0)
+            c.assume(snu[0] > 0)
+            cols = [lam, fr]
+            L.np.loadtxt = lambda filename, usecols=None, dtype=None, **kw: cols[usecols[0]]
+            f = F.Filter.read('/filters/F1.txt')
+            c.vars = (lam, fr, snu, f)
+            return f.rebin(snu * u.Hz).response
+
+        with loader.Coverage() as cov:
+            for c, out in ex.run(body):
+                lam, fr, snu, f = c.vars
+                if out[0] == 'exc':
+                    cl.crash(c, out[1], 'H06e Filter.read + rebin')
+                    continue
+                resp = out[1]
+                fnu = [x for x in symnp._obj(f.nu.to(u.Hz).value)]
+                ok = f.name == 'F1' and len(fnu) == k
+                goals = [C.same(f.central_wavelength.to(u.micron).value, 1.25)]
+                xs, ys = fnu[::-1], list(fr)[::-1]        # increasing frequency
+                for i in range(m):
+                    e1 = snu[0] if i == 0 else 0.5 * (snu[i - 1] + snu[i])
+                    e2 = snu[m - 1] if i == m - 1 else 0.5 * (snu[i] + snu[i + 1])
+                    goals.append(C.same(resp[i], pw_integral(xs, ys, e1, e2)))
+                cl.claim(c, conj(goals) if ok else False, 'H06e a filter read from a wavelength file rebins to the bin integrals (k=%d,m=%d)' % (k, m))
+                if part.witnesses < 2:
+                    cl.witness(c)
+        R.finish_part(part, ex, cov)
+    return run
+
+
 def configs(tier, seed):
     cfgs = []
     ks = [2, 3, 4] if tier == 'quick' else [2, 3, 4, 5, 6]
@@ -240,6 +295,8 @@ def configs(tier, seed):
             for s_asc in (True, False):
                 cfgs.append(Config('H06c normalised k=%d m=%d filter-%s sed-%s' % (k, m, 'asc' if f_asc else 'desc', 'asc' if s_asc else 'desc'),
                                    h06b(k, m, f_asc, s_asc, normalized=True), 3000))
+    for (k, m) in ([(2, 2)] if tier == 'quick' else [(2, 2), (3, 2), (2, 3)]):
+        cfgs.append(Config('H06e Filter.read + rebin k=%d m=%d' % (k, m), h06e(k, m), 3000))
     return cfgs
 
 
